@@ -67,6 +67,11 @@ MAP = [
  ("cursor up with a scroll region scrolls once per requested line", "C03", "ESC[2;24r ESC[2147483647A (13-byte CUU/VPB with top/bottom margins): 2^31 region scrolls"),
  ("cursor up in a file buffer leaves the caret on a negative row", "C02", "ANSI file 'ESC[4h ESC[2k 2': caret row -2 in a non-terminal buffer, print_char panics (capacity overflow)"),
  ("a PSF font with zero glyph height or width is accepted", "C02", "Avatar/ANSI file 'ESC P q \"7; ESC \\ ESC P CTerm:Font:0:NgQAAA== ESC \\' (sixel + PSF1 font with charsize 0): loader divides the image height by font height 0"),
+ ("IGS ColorSet accepts pen numbers beyond the 16 pens", "C20", "G#C1,40: then any drawing command: get_picture_data() indexes pen_colors[40]"),
+ ("RIP flood fill indexes outside the screen", "C20", "!|v|B|F0000VB (empty viewport) and !|v1H0LHLB2|F2MA01H (viewport below the window): flood fill indexes fill rows / screen out of bounds"),
+ ("IGS filled ellipse repaints a row once per unit", "C20", "G#Q6,0,9999,0: 6.4 million pixel writes for one command"),
+ ("IGS screen grab and blit loop over", "C20", "G#G0,0,0,0,999,21447,0,0: 21 million pixel copies; screen-to-memory grab of 32767x32767 asks for 1 GiB (allocation refusal)"),
+ ("RIP button drawing visits every pixel of a button far larger", "C20", "!|R|1BZD00XMFZRLZ5|1U: about ten million put_pixel calls for one button"),
 ]
 
 def main():
